@@ -474,7 +474,12 @@ def run_shard(spec):
         # scenario histories: write through one reference, unbind (and maybe re-add) the binding that
         # defined it through nima's own rm / set, write through the same reference again
         plan = None
-        if history and route == "cli" and rng.random() < 0.45:
+        # (flat one-line rec sets: structurally equal bindings are most likely there - always)
+        flat_rec = route == "cli" and prog.alias is None and prog.root.rec and prog.root.inline \
+            and not prog.root.wrappers
+        if flat_rec:
+            history, steps = True, max(steps, 5)
+        if history and route == "cli" and (flat_rec or rng.random() < 0.45):
             plan = scenario_plan(rng, prog)
             if plan is not None:
                 steps = 2
